@@ -135,7 +135,7 @@ fn eval_hist(c: &HistCase, obs: &mut Obs) -> Result<(), String> {
         return Ok(());
     }
     let a = Aligned::new(bytes);
-    let mbi = match mb2_sandbox::catch(|| unsafe { multiboot2::BootInformation::load(a.as_ptr().cast()) }) {
+    let mbi = match mb2_model::panics::catch(|| unsafe { multiboot2::BootInformation::load(a.as_ptr().cast()) }) {
         Some(Ok(m)) => m,
         other => return Err(format!("model says the region loads, load returned {:?}", other.map(|r| r.err()))),
     };
@@ -172,7 +172,7 @@ fn eval_hist(c: &HistCase, obs: &mut Obs) -> Result<(), String> {
                 }
                 let i = *i as usize % real.len();
                 let (Some(r), Some(m)) = (real[i].as_mut(), model[i]) else { continue };
-                let got = mb2_sandbox::catch(|| r.next().map(|t| (t as *const _ as *const u8 as usize - base, u32::from(t.header().typ), t.header().size, t.payload().as_ptr() as usize - base, t.payload().len())));
+                let got = mb2_model::panics::catch(|| r.next().map(|t| (t as *const _ as *const u8 as usize - base, u32::from(t.header().typ), t.header().size, t.payload().as_ptr() as usize - base, t.payload().len())));
                 if m < w.items.len() {
                     let it = w.items[m];
                     let want = Some(Some((it.off, it.typ, it.size, it.off + 8, it.size as usize - 8)));
@@ -195,7 +195,7 @@ fn eval_hist(c: &HistCase, obs: &mut Obs) -> Result<(), String> {
                 }
             }
             Op::Modules => {
-                let got = mb2_sandbox::catch(|| mbi.module_tags().map(|t| t as *const _ as *const u8 as usize - base).collect::<Vec<_>>());
+                let got = mb2_model::panics::catch(|| mbi.module_tags().map(|t| t as *const _ as *const u8 as usize - base).collect::<Vec<_>>());
                 let mut want = Vec::new();
                 let mut must_panic = w.panic_at.is_some();
                 for it in w.items.iter().filter(|i| i.typ == 3) {
